@@ -242,7 +242,32 @@ def run_c19(cx, tier="quick"):
                         witness=parse_call_args(msg) or {}, solver_s=dt)
         else:
             cx.external(f"{fn}", "unsat" if st == "confirmed" else "unknown", msg, key=f"stop:{fn}", solver_s=dt)
-    for fn in ("canary_patience", "canary_reach"):
+    # the real ml.train loop (source cut out of training.py, environment stubbed) for every bounded loss history
+    for fn, kind in (("check_train_loop_trainloss", "train"), ("check_train_loop_valloss", "val")):
+        st, msg = res.get(fn, ("unknown", "no report line"))
+        name = f"{fn}: the real ml.train loop stops at the specified epoch and returns the best epoch's model"
+        if st in ("refuted", "raised"):
+            args = parse_call_args(msg) or {}
+            rep_ok, det = False, msg
+            for rp, conv in (("np.float32", np.float32), ("jax", lambda v: jnp.asarray(v, dtype=jnp.float32))):
+                try:
+                    from xhair import c19_stop
+                    ls = [float(np.float32(l)) for l in args.get("losses", [])]
+                    for nb in (1, 2):
+                        ok = c19_stop._train_spec(kind, ls, int(args.get("patience", 0)), float(args.get("min_delta", 0.0)), nb=nb, conv=conv, wrap=False)
+                        if not ok:
+                            break
+                    d = f"real ml.train loop (stubbed environment, {nb} batch(es) per epoch) fed {rp} losses {ls} patience={args.get('patience')} min_delta={args.get('min_delta')}: " \
+                        f"ran/returned {c19_stop._run_train(kind, ls, int(args.get('patience', 0)), float(args.get('min_delta', 0.0)), nb=nb, conv=conv, wrap=False)[:2]}"
+                except Exception as e:  # noqa: BLE001
+                    ok, d = False, f"the real ml.train loop raised {e!r}"
+                if not ok:
+                    rep_ok, det = True, d
+                    break
+            cx.external(name, "sat", det, reproduced=rep_ok, key=f"stop:{fn}", witness=args, solver_s=dt)
+        else:
+            cx.external(name, "unsat" if st == "confirmed" else "unknown", msg, key=f"stop:{fn}", solver_s=dt)
+    for fn in ("canary_patience", "canary_reach", "canary_train_loop"):
         st, msg = res.get(fn, ("unknown", "no report line"))
         cx.external(f"canary[{fn}]", "sat" if st == "refuted" else ("unsat" if st == "confirmed" else "unknown"), msg, reproduced=True, canary=True)
     # genuine-scalar differential runs over a small ordered alphabet (translator validation of the NF / float-stub modelling)
@@ -280,6 +305,22 @@ def run_c19(cx, tier="quick"):
                     n += 1
                     if not ok:
                         bad.append(d)
+    from xhair import c19_stop as _cs
+    for L in (1, 2, 3, 4):
+        for losses in itertools.product([1.0, 2.0, 3.0], repeat=L):
+            for pat in (0, 1):
+                for kind in ("train", "val"):
+                    for nb, conv, nm in ((1, np.float32, "np.float32"), (2, lambda v: jnp.asarray(v, dtype=jnp.float32), "jax")):
+                        if L == 4 and nb == 2:
+                            continue
+                        n += 1
+                        try:
+                            ok = _cs._train_spec(kind, list(losses), pat, 0.0, nb=nb, conv=conv, wrap=False)
+                        except Exception as e:  # noqa: BLE001
+                            ok = False
+                        if not ok:
+                            bad.append(f"real ml.train loop (stubbed environment, {nb} batch(es)/epoch, {nm} losses {losses}, {kind}, patience {pat}) does not stop at the "
+                                       f"specified epoch with the best epoch's model")
     cx.validated_against_impl(n)
     if bad:
         cx.external("genuine scalars (float, np.float32, jax) on the real classes", "sat", bad[0] + f" (+{len(bad) - 1} more)", reproduced=True,
